@@ -150,6 +150,25 @@ def model_tree(case):
     return go(case["tree"])
 
 
+_VNODE = []
+
+
+def vnode_class():
+    """a user subclass with VALUE semantics: nodes of the same name compare (and hash) equal, so distinct
+    nodes of one tree can be `==`; the library has to work on identity"""
+    if not _VNODE:
+        from bigtree.node.node import Node
+
+        class VNode(Node):
+            def __eq__(self, other):
+                return isinstance(other, Node) and other.node_name == self.node_name
+
+            def __hash__(self):
+                return hash(self.node_name)
+        _VNODE.append(VNode)
+    return _VNODE[0]
+
+
 def _build(case):
     sep = case["sep"]
     if case.get("cls", "Node") == "BinaryNode":
@@ -172,7 +191,7 @@ def _build(case):
         root = gob(case["tree"])
         root.sep = sep
         return root
-    from bigtree.node.node import Node
+    Node = vnode_class() if case.get("cls") == "VNode" else __import__("bigtree.node.node", fromlist=["Node"]).Node
 
     def go(t, parent):
         kw = {k: py_value(v) for k, v in t[1]}
@@ -281,21 +300,54 @@ def run_impl(prop, case):
         seps[key] = t.sep
         return _flat_tree(t, strict=strict)
 
+    VNode = vnode_class()
+    # the path round trips can be compared with a re-export only where path strings are unambiguous
+    free = all(ch not in n[0] for _, _, n in t_nodes(case["tree"]) for ch in sep)
+
+    def drop_nulls(rows):
+        return [[kv for kv in r if kv[1] != ["N"]] for r in rows]
+
+    def roundtrip(key, exp, snap, imp, strict, reexport_ok, norm=lambda x: x):
+        """export -> import, with the caller's export object checked untouched, imported a second time
+        (other node_type) and the imported tree exported again"""
+        d = exp(root)
+        before_d = snap(d)
+        t1 = imp(d, {})
+        if snap(d) != before_d:
+            raise ObsError(key + ": the constructor modified the export object it was given")
+        t2 = imp(d, {"node_type": VNode})
+        if snap(d) != before_d:
+            raise ObsError(key + ": the constructor modified the export object it was given (second import)")
+        f1 = rebuilt(key, t1, strict)
+        if type(t2) is not VNode or _flat_tree(t2, strict=strict) != f1:
+            raise ObsError(key + ": importing the same object a second time (node_type=subclass) gives another tree")
+        if reexport_ok and norm(snap(exp(t1))) != norm(before_d):
+            raise ObsError(key + ": exporting the imported tree does not reproduce the export")
+        return f1
+
     def rt_dict():
-        return rebuilt("rt_dict", construct.dict_to_tree(export.tree_to_dict(root, all_attrs=True), sep=sep,
-                                                         duplicate_name_allowed=dup))
+        return roundtrip("rt_dict", lambda t: export.tree_to_dict(t, all_attrs=True),
+                         lambda d: [[p_, _items(r)] for p_, r in d.items()],
+                         lambda d, kw: construct.dict_to_tree(d, sep=sep, duplicate_name_allowed=dup, **kw),
+                         True, free)
 
     def rt_nested():
-        d = export.tree_to_nested_dict(root, name_key=nk, child_key=ck, all_attrs=True)
-        return rebuilt("rt_nested", construct.nested_dict_to_tree(d, name_key=nk, child_key=ck))
+        return roundtrip("rt_nested", lambda t: export.tree_to_nested_dict(t, name_key=nk, child_key=ck, all_attrs=True),
+                         enc_value,
+                         lambda d, kw: construct.nested_dict_to_tree(d, name_key=nk, child_key=ck, **kw),
+                         True, True)
 
     def rt_df():
-        return rebuilt("rt_df", construct.dataframe_to_tree(export.tree_to_dataframe(root, all_attrs=True), sep=sep,
-                                                            duplicate_name_allowed=dup), strict=False)
+        return roundtrip("rt_df", lambda t: export.tree_to_dataframe(t, all_attrs=True),
+                         lambda d: [list(d.columns), list(d.index), _rows_pd(d)],
+                         lambda d, kw: construct.dataframe_to_tree(d, sep=sep, duplicate_name_allowed=dup, **kw),
+                         False, free, norm=lambda x: drop_nulls(x[2]))
 
     def rt_pl():
-        return rebuilt("rt_pl", construct.polars_to_tree(export.tree_to_polars(root, all_attrs=True), sep=sep,
-                                                         duplicate_name_allowed=dup))
+        return roundtrip("rt_pl", lambda t: export.tree_to_polars(t, all_attrs=True),
+                         lambda d: [list(d.columns), _rows_pl(d)],
+                         lambda d, kw: construct.polars_to_tree(d, sep=sep, duplicate_name_allowed=dup, **kw),
+                         True, free, norm=lambda x: drop_nulls(x[1]))
 
     no_polars = any(k in POLARS_UNFIT for _, _, n in t_nodes(case["tree"]) for k, _ in n[1])
     for key, f in (("dict", ex_dict), ("nested", ex_nested), ("df", ex_df), ("pl", ex_pl)):
@@ -417,6 +469,25 @@ ATTR_TYPES = {
     "tp": lambda r: {"py": r.choice(["(1, 'x')", "()", "(2,)"])},
     "nx": lambda r: {"py": r.choice(["[1, [2, 'x'], {'k': [0]}]", "[[], {}]", "{'a': [1, (2, 3)], 'b': {'c': None}}"])},
 }
+# attribute NAMES that are affixes / superstrings of built-in names and of the option values
+ATTR_TYPES.update({
+    "name_en": lambda r: r.choice(["x", "y z"]),
+    "names": lambda r: r.choice([1, 2]),
+    "nam": lambda r: r.random() < 0.5,
+    "xname": lambda r: r.choice(["u", "v"]),
+    "paths": lambda r: r.choice([3, 4]),
+    "pathx": lambda r: r.choice(["/a", "b/"]),
+    "parent_id": lambda r: r.choice([7, 8]),
+    "childrens": lambda r: r.choice(["c"]),
+    "sepx": lambda r: r.choice(["/", "|"]),
+    "depthx": lambda r: r.choice([1, 9]),
+    "n": lambda r: r.choice([11, 12]),
+    "p": lambda r: r.choice(["q"]),
+    "x": lambda r: r.choice([0.5, 1.5]),
+    "y": lambda r: r.choice([1, 2]),
+    "shift": lambda r: r.choice([0.25]),
+    "kid": lambda r: r.choice(["k"]),
+})
 # polars cannot hold these kinds in one column (tuples of mixed types, ragged nesting): the two polars
 # entry points are not called for a tree carrying them
 POLARS_UNFIT = ("tp", "nx")
@@ -492,8 +563,9 @@ def gen_opts(rng, attr_keys, height):
         ks = rng.sample(src, min(len(src), rng.randint(1, 3)))
         outs = rng.sample(OUT_KEYS, len(ks))
         ad = [[k, v] for k, v in zip(ks, outs)]
-    name_key = rng.choice(["name", "name", "n", ""])
-    parent_key = rng.choice(["", "parent", "p", "p"])
+    # an option value equal to an attribute NAME of the tree would collide inside the record: affixes only
+    name_key = rng.choice([k for k in ["name", "name", "n", ""] if k not in attr_keys])
+    parent_key = rng.choice([k for k in ["", "parent", "p", "p"] if k not in attr_keys])
     path_col = rng.choice(["path", "path", "P", ""])
     if ad and rng.random() < 0.04:            # output key collides with the name key
         ad[-1][1] = name_key or "n"
@@ -544,7 +616,7 @@ def gen_case(rng, shape_kind=None, pool_name=None, nmax=11):
         "opts": gen_opts(rng, attr_keys, t_height(tree)),
         "child_key": rng.choice(["children", "children", "kids", "#c"]),
         "dup": dup,
-        "cls": "BinaryNode" if binary else "Node", "right_only": rng.random() < 0.5,
+        "cls": "BinaryNode" if binary else ("VNode" if rng.random() < 0.15 else "Node"), "right_only": rng.random() < 0.5,
         "stratum": f"{'bin-' if binary else ''}{'k3-' if k3 else 'multi-' if multi else ''}{shape_kind}/{pool_name}",
     }
 
@@ -597,7 +669,7 @@ def corpus(prop):
 
 
 def generate(prop, rng, tier):
-    count = {"quick": 1000, "thorough": 20000, "search": 3000}[tier]
+    count = {"quick": 800, "thorough": 20000, "search": 2400}[tier]
     for _ in range(count):
         c = gen_case(rng)
         yield c["stratum"], c
@@ -745,7 +817,11 @@ def rule(prop):
             "skip_depth, leaf_only), each run ON ONE TREE OBJECT through the four exporters (three of them twice, results must "
             "repeat), then the four export->constructor round trips (nested pair with the case's name_key/child_key; path "
             "constructors with duplicate_name_allowed True/False and the tree's separator; the rebuilt root's sep is observed), and "
-            "the source tree must be unchanged at the end; "
+            "the source tree must be unchanged at the end; every round trip snapshots the export object before the import and compares "
+            "it afterwards, imports the SAME object a second time with node_type = a user subclass with value semantics (__eq__/__hash__ "
+            "by name) and requires the same tree, and re-exports the imported tree (must reproduce the export; frames modulo null "
+            "cells; path formats only where no separator character occurs in a name); 15 % of the source trees are built from that "
+            "value-semantics subclass; "
             "non-trivial = >= 4 nodes, height >= 3, dict export non-empty and either a proper subset of the nodes or carrying "
             "attribute values; distinct by canonical JSON hash")
 
@@ -790,11 +866,18 @@ def partial_clauses(prop):
         "outcome depends on pandas' rendering of cells); attribute values drawn: int, str, bool, None, non-integral floats, and "
         "(as opaque values of the model) lists, dicts, sets, tuples, nested containers incl. empty ones, one kind per attribute key; "
         "never generated: NaN and integral floats as attribute values (pandas cannot tell them from a missing cell / an int), "
-        "mixed kinds under one key, non-str names, attribute names that are Node members, negative depths, custom Node "
+        "mixed kinds under one key, non-str names; attribute NAMES drawn include affixes / superstrings of built-in names and "
+        "option values (name_en, names, nam, xname, paths, pathx, parent_id, childrens, sepx, depthx, n, p, x, y, shift, kid) under "
+        "all_attrs and attr_dict; excluded by design: names starting with '_' are never exported by all_attrs (one such attribute is "
+        "generated to check exactly that), names EQUAL to a Node member (name, path_name, children, parent, sep, depth ...) or to the "
+        "name/parent/path/child key in use (they collide inside the record); attribute names that are Node members, negative depths, custom Node "
         "subclasses / node_type=, explicit path_col / attribute_cols of the frame constructors, a constructor separator different "
         "from the tree's; multi-character separators are drawn in 30 % of the cases ('->', '::', '=>', '//', '-|-'), 80 % of "
         "them with letter-only names (the proved guard), 20 % with one name starting / ending with a separator character "
         "(K3 territory, excused only when the model agrees and only the round-trip predicate is false)",
+        "NOT exercised because the unchanged tree itself misbehaves there (reported as a possible finding): user subclasses whose "
+        "instances can be falsy (__len__ = number of children): every exporter drops the leaves (`if node:`) and the path "
+        "constructors raise TreeError on paths of depth >= 3 (`if not node:` in add_path_to_tree)",
     ]
 
 
